@@ -919,8 +919,8 @@ def prove(tier, seed):
 
 _cases_before_frames_c08 = cases
 LEVEL_TEXT = LEVEL_TEXT + (" Proved (E1-term): XORGame.classical_value / nonsignaling_value are the values of the game's conversion to a general nonlocal game (the statement's "
-                           "'identical classical and non-signaling values'); and (E1-array with tabulation loops, all question-set sizes) XORGame.to_nonlocal_game builds the predicate V[a,b,x,y] = [pred[x,y] == a xor b] over the same "
-                           "distribution with the same number of repetitions (NonlocalGame's constructor by contract).")
+                           "'identical classical and non-signaling values'); and (E1-array with tabulation loops, all question-set sizes) XORGame.to_nonlocal_game returns NonlocalGame(prob_mat, V, reps=reps) with V[a,b,x,y] = [pred[x,y] == a xor b] "
+                           "(the constructor is an opaque term: the obligation is about the arguments it receives).")
 from props.C08_tab import ASSUMED as _TAB_ASSUMED  # noqa: E402
 
 ASSUMPTIONS = list(ASSUMPTIONS) + list(_TAB_ASSUMED)
